@@ -3,18 +3,23 @@
  * op file (same grammar as lean/Driver/Text.lean):
  *   R <S|F> <start> <show|print> <item>...    write the items at position <start> of a String / of a File, read them back
  *       item ::= s=<hex>   String shown with show_to / "%$"       i=<dec>  Int with show_to / "%$"     f=<16 hex> Float (bits)
- *                li=<dec> | ld=<dec> | lf=<16 hex>                 numeric specifications "%li" "%ld" "%lf"   (print mode only)
+ *                I<mod><conv>=<dec>   Int under "%<mod><conv>", mod in {"",hh,h,l,ll,j,z,t,q}, conv in d i o u x X          (print mode only)
+ *                F[l]<conv>=<16 hex>  Float under "%[l]<conv>", conv in f F e E g G                                         (print mode only)
+ *                li=<dec> | ld=<dec> | lf=<16 hex>                 short for Ili= Ild= Flf=
  *                t=<hex>   literal separator (no NUL, no '%')      pc       a literal percent, "%%"     (print mode only)
  *                z=<hex>   text appended after the written items that is not read (last item only)
  *       mode show : every value by show_to / look_from, every separator by its own print_to_with / scan_from_with call
  *       mode print: ONE print_to_with and ONE scan_from_with call with the format string built from the items
- *   K <S|F> <start> <s|i|f|ld> x=<hex>        read one value from the given text at <start> (look_from; "%ld" for ld)
+ *   K <S|F> <start> <s|i|f|ld|I<mod><conv>|F[l]<conv>> x=<hex>   read one value from the given text at <start> (look_from; scan_from with the specification)
  *
  * prints   O R w=<pos after writing> text=<written bytes> r=<pos after reading | exception> vals=<values read> tell=<ftell | ->
  *          O K r=<pos | exception> val=<value> tell=<ftell | ->
- *          C contract=<0|1>   (after every R observation) is the op inside the property's quantifier, as judged here
+ *          C contract=<0|1|2> (after every R observation) is the op inside the property's quantifier, as judged here: 1 yes; 2 yes except
+ *                             that a Float which is not a float value goes through a floating specification without `l` (the territory
+ *                             of known finding KF-C15-float-spec-narrow); 0 no
  * and X lines when the direct oracle (plain C comparison of what was written with what was read) sees the property violated
- * on an input inside the property's quantifier. */
+ * on an input inside the property's quantifier.  For an Int under a specification narrower than its value the oracle expects C's
+ * conversion to the type the specification names. */
 #include "common.h"
 #include <math.h>
 #include <inttypes.h>
@@ -22,8 +27,34 @@
 #define MAXB 70000
 #define MAXI 64
 
-enum { I_STR, I_INT, I_FLT, I_LI, I_LD, I_LF, I_LIT, I_PCT };
-typedef struct { int kind; unsigned char* b; size_t n; int64_t iv; uint64_t bits; } Item;
+enum { I_STR, I_INT, I_FLT, I_ISPEC, I_FSPEC, I_LIT, I_PCT };
+/* spec: the specification text ("%hhd", "%le"); conv: its conversion character; width: bits of the integer type the modifier names;
+ * wide: the floating specification has the l modifier */
+typedef struct { int kind; unsigned char* b; size_t n; int64_t iv; uint64_t bits; char spec[8]; char conv; int width; int wide; } Item;
+
+static const char* IMODS[] = { "", "hh", "h", "l", "ll", "j", "z", "t", "q" };
+static const int IWIDTH[] = { 32, 8, 16, 64, 64, 64, 64, 64, 64 };
+/* "I<mod><conv>" / "F[l]<conv>" -> fills spec, conv, width / wide; returns the item kind or -1 */
+static int parse_spec(const char* k, Item* it) {
+  size_t n = strlen(k);
+  if (k[0] == 'I' && n >= 2 && n <= 4 && strchr("diouxX", k[n-1])) {
+    for (int m = 0; m < 9; m++) if (strlen(IMODS[m]) == n - 2 && strncmp(IMODS[m], k + 1, n - 2) == 0) {
+      snprintf(it->spec, sizeof it->spec, "%%%s%c", IMODS[m], k[n-1]); it->conv = k[n-1]; it->width = IWIDTH[m]; return I_ISPEC; }
+    return -1;
+  }
+  if (k[0] == 'F' && (n == 2 || (n == 3 && k[1] == 'l')) && strchr("fFeEgG", k[n-1])) {
+    snprintf(it->spec, sizeof it->spec, "%%%s%c", n == 3 ? "l" : "", k[n-1]); it->conv = k[n-1]; it->wide = n == 3; return I_FSPEC; }
+  return -1;
+}
+static int is_signed_conv(char c) { return c == 'd' || c == 'i'; }
+/* C's conversion of n to the integer type of `width` bits, signed or unsigned, and back to int64_t */
+static int64_t conv_int(int width, int sgn, int64_t n) {
+  if (width == 64) return n;
+  uint64_t mask = ((uint64_t)1 << width) - 1, low = (uint64_t)n & mask;
+  if (sgn && (low >> (width - 1))) return (int64_t)(low | ~mask);
+  return (int64_t)low;
+}
+static int is_float_value(double x) { volatile float f = (float)x; return isfinite(f) && (double)f == x; }
 
 static int hexv(int c) { if (c >= '0' && c <= '9') return c - '0'; if (c >= 'a' && c <= 'f') return c - 'a' + 10; return -1; }
 /* returns length or -1 */
@@ -71,25 +102,23 @@ static char tmp_path[256];
 static var mk_val(Item* it) {
   switch (it->kind) {
     case I_STR: return new_raw(String, $S((char*)it->b));
-    case I_INT: case I_LI: case I_LD: return new_raw(Int, $I(it->iv));
-    case I_FLT: case I_LF: return new_raw(Float, $F(bits2d(it->bits)));
+    case I_INT: case I_ISPEC: return new_raw(Int, $I(it->iv));
+    case I_FLT: case I_FSPEC: return new_raw(Float, $F(bits2d(it->bits)));
   }
   return NULL;
 }
 static var mk_target(int kind) {
   switch (kind) {
     case I_STR: return new_raw(String, $S("?"));
-    case I_INT: case I_LI: case I_LD: return new_raw(Int, $I(77));
-    case I_FLT: case I_LF: return new_raw(Float, $F(7.5));
+    case I_INT: case I_ISPEC: return new_raw(Int, $I(77));
+    case I_FLT: case I_FSPEC: return new_raw(Float, $F(7.5));
   }
   return NULL;
 }
 static size_t fmt_of(Item* it, char* out) {   /* format text of one item; returns length */
   switch (it->kind) {
     case I_STR: case I_INT: case I_FLT: strcpy(out, "%$"); return 2;
-    case I_LI: strcpy(out, "%li"); return 3;
-    case I_LD: strcpy(out, "%ld"); return 3;
-    case I_LF: strcpy(out, "%lf"); return 3;
+    case I_ISPEC: case I_FSPEC: strcpy(out, it->spec); return strlen(it->spec);
     case I_PCT: strcpy(out, "%%"); return 2;
     default: memcpy(out, it->b, it->n); out[it->n] = 0; return it->n;
   }
@@ -97,7 +126,7 @@ static size_t fmt_of(Item* it, char* out) {   /* format text of one item; return
 static size_t val_dump(char* out, int kind, var v) {
   switch (kind) {
     case I_STR: { char* s = c_str(v); out[0] = 's'; out[1] = ':'; dump(out + 2, (unsigned char*)s, strlen(s)); break; }
-    case I_INT: case I_LI: case I_LD: sprintf(out, "i:%" PRId64, (int64_t)c_int(v)); break;
+    case I_INT: case I_ISPEC: sprintf(out, "i:%" PRId64, (int64_t)c_int(v)); break;
     default: sprintf(out, "f:%016" PRIx64, d2bits(c_float(v))); break;
   }
   return strlen(out);
@@ -109,36 +138,53 @@ static unsigned char pool[4 * MAXB]; static size_t pool_used;
 static unsigned char textbuf[4 * MAXB];
 static char outbuf[16 * MAXB];
 
-#define DIGIT 1000   /* stands for `some decimal digit` */
-/* first byte an item writes (for the contract check), -1 if nothing follows */
-static int first_byte_after(int idx) {
-  if (idx + 1 < nitems) {
-    Item* n = &items[idx + 1];
-    switch (n->kind) {
-      case I_STR: return '"';
-      case I_INT: case I_LI: case I_LD: return n->iv < 0 ? '-' : DIGIT;
-      case I_FLT: case I_LF: return (n->bits >> 63) ? '-' : DIGIT;
-      case I_PCT: return '%';
-      default: return n->b[0];
-    }
+/* the text libc itself writes for a numeric item (independent of the library under test); for a String only its first byte matters */
+static void item_text(Item* n, char* out, size_t cap) {
+  switch (n->kind) {
+    case I_STR: snprintf(out, cap, "\""); break;
+    case I_INT: snprintf(out, cap, "%li", (long)n->iv); break;
+    case I_FLT: snprintf(out, cap, "%f", bits2d(n->bits)); break;
+    case I_ISPEC: snprintf(out, cap, n->spec, n->iv); break;
+    case I_FSPEC: snprintf(out, cap, n->spec, bits2d(n->bits)); break;
+    case I_PCT: snprintf(out, cap, "%%"); break;
+    default: out[0] = (char)n->b[0]; out[1] = 0;
   }
+}
+/* first byte of what follows item idx (for the contract check), -1 if nothing follows */
+static int first_byte_after(int idx) {
+  if (idx + 1 < nitems) { static char t[512]; item_text(&items[idx + 1], t, sizeof t); return (unsigned char)t[0]; }
   return zlen > 0 ? zbuf[0] : -1;
 }
 static int is_space(int c) { return c == ' ' || (c >= 9 && c <= 13); }
-/* is the op inside the property's quantifier?  (independent restatement of the condition on separators) */
-static int in_contract(int is_file, int* has_pct) {
-  int ok = 1; *has_pct = 0;
+static int is_xdig(int c) { return (c >= '0' && c <= '9') || (c >= 'a' && c <= 'f') || (c >= 'A' && c <= 'F'); }
+/* is the op inside the property's quantifier?  (independent restatement of the conditions on separators and on value ranges)
+ * 1: yes; 2: yes but for Floats that are not float values under an l-less floating specification; 0: no.
+ * *base: the separator conditions alone (the oracle then still knows what C's conversions must give) */
+static int in_contract(int is_file, int* base) {
+  int ok = 1, fits = 1, narrow_only = 1;
   for (int i = 0; i < nitems; i++) {
-    int nb = first_byte_after(i); int digit = nb == DIGIT || (nb >= '0' && nb <= '9');
-    switch (items[i].kind) {
-      case I_INT: case I_LI: if (digit || (items[i].iv == 0 && (nb == 'x' || nb == 'X'))) ok = 0; break;
-      case I_LD: if (digit) ok = 0; break;
-      case I_FLT: case I_LF: if (digit || nb == 'e' || nb == 'E') ok = 0; break;
-      case I_LIT: if (is_file && is_space(items[i].b[items[i].n - 1]) && nb >= 0 && is_space(nb)) ok = 0; break;
-      case I_PCT: *has_pct = 1; break;
+    int nb = first_byte_after(i); int digit = nb >= '0' && nb <= '9'; int xx = nb == 'x' || nb == 'X';
+    Item* it = &items[i];
+    switch (it->kind) {
+      case I_INT: if (digit || (it->iv == 0 && xx)) ok = 0; break;
+      case I_ISPEC: {
+        int zero = conv_int(it->width, 0, it->iv) == 0;      /* the text written is "0" */
+        if (it->conv == 'x' || it->conv == 'X') { if ((nb >= 0 && is_xdig(nb)) || (zero && xx)) ok = 0; }
+        else if (it->conv == 'i') { if (digit || (zero && xx)) ok = 0; }
+        else if (digit) ok = 0;
+        if (conv_int(it->width, is_signed_conv(it->conv), it->iv) != it->iv) { fits = 0; narrow_only = 0; }
+        break; }
+      case I_FLT: if (digit || nb == 'e' || nb == 'E') ok = 0; break;
+      case I_FSPEC:
+        if (digit || nb == 'e' || nb == 'E') ok = 0;
+        if ((it->conv == 'g' || it->conv == 'G') && (nb == '.' || xx)) ok = 0;
+        if (!it->wide && !is_float_value(bits2d(it->bits))) fits = 0;
+        break;
+      case I_LIT: if (is_file && is_space(it->b[it->n - 1]) && nb >= 0 && is_space(nb)) ok = 0; break;
     }
   }
-  return ok;
+  *base = ok;
+  return !ok ? 0 : fits ? 1 : narrow_only ? 2 : 0;
 }
 
 static FILE* raw_file(var f) { return ((struct File*)f)->file; }
@@ -205,9 +251,9 @@ static void op_R(int is_file, long start, int print_mode, size_t lineno) {
   }
   /* ---- direct oracle: the property itself */
   {
-    int has_pct; int contract = in_contract(is_file, &has_pct);
-    fprintf(vout, "C contract=%d\n", contract); (void)has_pct;   /* cross-checked with the model's `contractOK` (the theorems' hypothesis) */
-    if (contract) {
+    int base; int contract = in_contract(is_file, &base);
+    fprintf(vout, "C contract=%d\n", contract);   /* cross-checked with the model's `inProperty` (the theorems' hypothesis) */
+    if (base) {
       if ((size_t)(wpos - start) != tlen) X("sig=C15-write-count line=%zu what=writer returned position %d for %zu characters written at %ld", lineno, wpos, tlen, start);
       if (exc) X("sig=C15-exception line=%zu what=reading back raised %s", lineno, v_exc_name(exc));
       else {
@@ -216,15 +262,28 @@ static void op_R(int is_file, long start, int print_mode, size_t lineno) {
         for (int i = 0; i < nitems; i++) if (targets[i]) {
           switch (items[i].kind) {
             case I_STR: if (strcmp(c_str(targets[i]), (char*)items[i].b) != 0) X("sig=C15-value-string line=%zu what=item %d: String read back differs", lineno, i); break;
-            case I_INT: case I_LI: case I_LD:
+            case I_INT:
               if (c_int(targets[i]) != items[i].iv) X("sig=C15-value-int line=%zu what=item %d: wrote %" PRId64 " read %" PRId64, lineno, i, items[i].iv, (int64_t)c_int(targets[i])); break;
+            case I_ISPEC: {
+              /* the value written when the type the specification names can hold it; otherwise C's conversion to that type */
+              int64_t want = conv_int(items[i].width, is_signed_conv(items[i].conv), items[i].iv);
+              if (c_int(targets[i]) != want)
+                X("sig=C15-value-int-spec line=%zu what=item %d: wrote %" PRId64 " with %s, read %" PRId64 ", expected %" PRId64, lineno, i, items[i].iv, items[i].spec, (int64_t)c_int(targets[i]), want);
+              break; }
             default: {
               double x = bits2d(items[i].bits), y = c_float(targets[i]);
-              /* equal to within the printed precision: half a unit of the sixth decimal, plus the rounding of the reader */
+              const char* spec = items[i].kind == I_FSPEC ? items[i].spec : "%f";
+              char cv = items[i].kind == I_FSPEC ? items[i].conv : 'f';
+              /* equal to within the printed precision: the same text under the same specification; for six decimals also half a
+               * unit of the sixth decimal plus the rounding of the reader */
               double tol = 0.5e-6 + fabs(x) * 1.2e-16;
-              char a[400], b[400]; snprintf(a, sizeof a, "%f", x); snprintf(b, sizeof b, "%f", y);
-              if (!(fabs(x - y) <= tol) || strcmp(a, b) != 0)
-                X("sig=C15-value-float line=%zu what=item %d: wrote %.17g read %.17g", lineno, i, x, y);
+              char a[400], b[400]; snprintf(a, sizeof a, spec, x); snprintf(b, sizeof b, spec, y);
+              int bad = strcmp(a, b) != 0 || ((cv == 'f' || cv == 'F') && !(fabs(x - y) <= tol));
+              if (bad) {
+                if (items[i].kind == I_FSPEC && !items[i].wide && !is_float_value(x))
+                  X("sig=kf-c15-float-spec-narrow line=%zu what=item %d: wrote %.17g with %s, read %.17g (stored through a float)", lineno, i, x, spec, y);
+                else X("sig=C15-value-float line=%zu what=item %d: wrote %.17g with %s read %.17g", lineno, i, x, spec, y);
+              }
             }
           }
         }
@@ -237,12 +296,12 @@ done:
   free(fill);
 }
 
-static void op_K(int is_file, long start, int kind, unsigned char* text, size_t n, size_t lineno) {
+static void op_K(int is_file, long start, int kind, const char* spec, unsigned char* text, size_t n, size_t lineno) {
   var src = NULL; var exc = NULL; var target = mk_target(kind);
   if (is_file) { src = new_raw(File, $S(tmp_path), $S("w+b")); if (n) fwrite(text, 1, n, raw_file(src)); fflush(raw_file(src)); sseek(src, start, SEEK_SET); }
   else src = new_raw(String, $S((char*)text));
   volatile int rpos = (int)start; long tell = -1;
-  V_TRY(exc, { if (kind == I_LD) rpos = scan_from(src, (int)start, "%ld", target); else rpos = look_from(target, src, (int)start); });
+  V_TRY(exc, { if (spec) rpos = scan_from(src, (int)start, spec, target); else rpos = look_from(target, src, (int)start); });
   if (!exc && is_file) tell = ftell(raw_file(src));
   char* p = outbuf;
   if (exc) p += sprintf(p, "K r=%s val=", v_exc_name(exc)); else p += sprintf(p, "K r=%d val=", rpos);
@@ -284,21 +343,26 @@ int main(int argc, char** argv) {
           if (tk[0] == 't') { if (len == 0 || has_byte(dst, (size_t)len, '%') || (nitems && items[nitems-1].kind == I_LIT)) { bad = 1; break; } it.kind = I_LIT; }
           else it.kind = I_STR;
         } else if (strcmp(tk, "i") == 0) { it.kind = I_INT; if (!parse_i64(v, &it.iv)) bad = 1; }
-        else if (strcmp(tk, "li") == 0) { it.kind = I_LI; if (!pm || !parse_i64(v, &it.iv)) bad = 1; }
-        else if (strcmp(tk, "ld") == 0) { it.kind = I_LD; if (!pm || !parse_i64(v, &it.iv)) bad = 1; }
         else if (strcmp(tk, "f") == 0) { it.kind = I_FLT; if (!parse_bits(v, &it.bits)) bad = 1; }
-        else if (strcmp(tk, "lf") == 0) { it.kind = I_LF; if (!pm || !parse_bits(v, &it.bits)) bad = 1; }
-        else bad = 1;
+        else {
+          const char* key = strcmp(tk, "li") == 0 ? "Ili" : strcmp(tk, "ld") == 0 ? "Ild" : strcmp(tk, "lf") == 0 ? "Flf" : tk;
+          it.kind = parse_spec(key, &it);
+          if (!pm || it.kind < 0) bad = 1;
+          else if (it.kind == I_ISPEC) { if (!parse_i64(v, &it.iv)) bad = 1; }
+          else if (!parse_bits(v, &it.bits)) bad = 1;
+        }
         if (!bad) items[nitems++] = it;
       }
       if (!bad && nitems == 0) bad = 1;
       if (!bad) { nR++; op_R(is_file, start, pm, li + 1); continue; }
     } else if (!bad && strcmp(toks[0], "K") == 0 && ntok == 5) {
-      int kind = strcmp(toks[3], "s") == 0 ? I_STR : strcmp(toks[3], "i") == 0 ? I_INT : strcmp(toks[3], "f") == 0 ? I_FLT : strcmp(toks[3], "ld") == 0 ? I_LD : -1;
+      Item kit; memset(&kit, 0, sizeof kit);
+      int kind = strcmp(toks[3], "s") == 0 ? I_STR : strcmp(toks[3], "i") == 0 ? I_INT : strcmp(toks[3], "f") == 0 ? I_FLT
+               : parse_spec(strcmp(toks[3], "ld") == 0 ? "Ild" : toks[3], &kit);
       if (kind < 0 || strncmp(toks[4], "x=", 2) != 0) bad = 1;
       long len = bad ? -1 : unhex(toks[4] + 2, pool, MAXB - 1);
       if (len < 0 || start > len || (!is_file && has_byte(pool, (size_t)len, 0))) bad = 1;
-      if (!bad) { pool[len] = 0; nK++; op_K(is_file, start, kind, pool, (size_t)len, li + 1); continue; }
+      if (!bad) { pool[len] = 0; nK++; op_K(is_file, start, kind, kind == I_ISPEC || kind == I_FSPEC ? kit.spec : NULL, pool, (size_t)len, li + 1); continue; }
     } else bad = 1;
     O("bad-op");
   }
